@@ -34,6 +34,8 @@ type RigOpts struct {
 	// DetachCtx: the server sits behind a middleware that replaces the request context with one that is not cancelled
 	// when the connection goes away (applications do this to tie hijacked connections to their own shutdown instead)
 	DetachCtx bool
+	// HTTPClientTimeout: http clients are built with WithTimeout(d) (a WebSocket liveness option that means nothing for http)
+	HTTPClientTimeout time.Duration
 }
 
 type DialCtl struct {
@@ -193,6 +195,7 @@ func NewRig(o RigOpts) (*Rig, error) {
 	}
 	r.RPC = jsonrpc.NewServer(sopts...)
 	r.RPC.Register("Tok", r.API)
+	r.RPC.AliasMethod("Tok.SubVia", "Tok.Sub")
 	var h http.Handler = r.RPC
 	if o.DetachCtx {
 		h = http.HandlerFunc(func(w http.ResponseWriter, req *http.Request) {
@@ -271,6 +274,9 @@ func (r *Rig) NewHTTPClient(id string) (*RigClient, error) {
 func (r *Rig) NewHTTPClientVia(id, addr string, hcl *http.Client) (*RigClient, error) {
 	c := &RigClient{ID: id, HTTP: true}
 	var opts []jsonrpc.Option
+	if r.Opts.HTTPClientTimeout > 0 {
+		opts = append(opts, jsonrpc.WithTimeout(r.Opts.HTTPClientTimeout), jsonrpc.WithPingInterval(r.Opts.HTTPClientTimeout/4))
+	}
 	if hcl != nil {
 		opts = append(opts, jsonrpc.WithHTTPClient(hcl))
 	}
